@@ -43,3 +43,16 @@ e3("C11", "Bounded symbolic execution of the real cross-coverage code through th
           "whose gating conditions hold and whose value combination lies in that bin combination; bin count, order and names follow the "
           "coverpoints' bins. Bin layouts are enumerated.",
    "symbolic execution of the real Python code with z3 (all sample/iff values, sample sequences), enumerated bin layouts", "DESIGN.md section 6 C11")
+
+e3("C12", "Bounded symbolic execution of the real registry/sampling/coverage code through the public API: sample values AND the choice of "
+          "which of 1..3 instances samples are symbolic over 2..3-sample sequences; after each sample z3 shows instance hits = own samples only, "
+          "type hits = bin-wise sum over the instances of the shape, a differently-shaped instance forms a separate untouched type, and on every "
+          "path coverage equals the reference (bins with hits >= at_least, weight-averaged over coverpoints/crosses), stays in 0..100, never "
+          "decreases, is 100 iff fully covered. Populations/options are enumerated.",
+   "symbolic execution of the real Python code with z3 (sample values and sampling instance symbolic), enumerated populations/options", "DESIGN.md section 6 C12")
+e3("C13", "Bounded symbolic execution of the real report path (CoverageSaveVisitor -> PyUCIS in-memory DB -> report builder) with the hit count of "
+          "every regular/ignore/illegal/cross bin of the type and of each instance injected as a symbolic integer into a state satisfying the "
+          "representation invariant: z3 shows every reported count is the in-memory count, names and structure agree, percentages agree with "
+          "get_coverage()/get_inst_coverage() on every path and reporting leaves the state untouched. Text report: names/counts on concrete "
+          "histories. The UCIS XML write/read round trip is not claimed (lxml/text formatting make counts concrete).",
+   "symbolic execution of the real Python code with z3 (all hit counts symbolic), enumerated populations; XML part not applicable", "DESIGN.md section 6 C13 / section 7")
